@@ -1,14 +1,14 @@
 SPECIFICATION SSpec
 CONSTANTS
-  InvDom <- ST_Inv
+  InvDom <- SL_Inv
   LinkDom = {}
-  SessLinks <- @Links@
-  MaxLen = 3
-  NowDom = {1, 3, 5}
+  SessLinks <- SL_Links
+  MaxLen = 2
+  NowDom = {1}
   ArgPoints = {0, 1, 2}
   Conforming = FALSE
-  Hooks = {"none"}
-  Stores = {"full"}
+  Hooks = {"none", "id"}
+  Stores = {"full", "none"}
   MaxChecks = 3
   Deviations = @Deviations@
 INVARIANTS Historyless SessSoundPrincipals SessSoundTime SessSoundPolicies SessComplete @Emit@
